@@ -192,6 +192,7 @@ func treeRun(sc *Scenario) *TreeOut {
 	var scopes []scopeRec
 	pendSnap, pendLogs := -1, 0
 	injected := ""
+	jpFailed := ""
 	nodeHash := map[*avm.Call]uint64{}
 	nodeLen := map[*avm.Call]int{}
 	var curTree *avm.CallTree
@@ -205,9 +206,20 @@ func treeRun(sc *Scenario) *TreeOut {
 			scopes = scopes[:0]
 			pendSnap = -1
 			injected = ""
+			jpFailed = ""
 		case evInject:
 			if strings.HasPrefix(e.Name, "provider-") || strings.HasPrefix(e.Name, "aspect-") {
 				injected = "jp:" + e.Name
+			}
+			if strings.HasPrefix(e.Name, "provider-") {
+				jpFailed = e.Name
+			}
+		case evAspectExit:
+			if e.Err != "" {
+				jpFailed = "aspect-exit-error"
+				if e.Err == "out of gas" {
+					jpFailed = "aspect-exit-oog"
+				}
 			}
 		case evDB:
 			switch e.Name {
@@ -230,6 +242,11 @@ func treeRun(sc *Scenario) *TreeOut {
 			}
 			s := scopes[len(scopes)-1]
 			scopes = scopes[:len(scopes)-1]
+			if e.Err == "" && jpFailed != "" && s.snapSeq >= 0 {
+				// C04.jpfail: a failure reported by this frame's join point must end the frame in an error
+				t.add("C04", "C04.jpfail", jpFailed, e.Seq, "a join point of the frame entered at seq %d failed (%s) but the frame closed without error: its effects stay and the caller observes success", s.enterSeq, jpFailed)
+			}
+			jpFailed = ""
 			if e.Err != "" && s.snapSeq >= 0 {
 				cause := causeOf(e.Err, injected)
 				// C04.restore: every location touched inside the failed frame's scope holds its pre-image
@@ -741,6 +758,17 @@ func (t *TreeOut) checkGrammar() {
 						}
 					} else if ai.Gas > f.Gas {
 						t.add("C05", "C05.payload", "post-gas", ai.Seq, "post join point got gas %d, more than the call was given (%d)", ai.Gas, f.Gas)
+					} else if len(f.Steps) > 0 {
+						// the callee halted exceptionally at its last step: what it had left lies between
+						// the gas before that instruction and that gas minus the instruction's listed cost
+						ls := f.Steps[len(f.Steps)-1]
+						lo := uint64(0)
+						if ls.Cost <= ls.Gas {
+							lo = ls.Gas - ls.Cost
+						}
+						if ai.Gas > ls.Gas || ai.Gas < lo || gas == nil || *gas != ai.Gas {
+							t.add("C05", "C05.payload", "post-gas-after-halt", ai.Seq, "post join point got gas %d (request field %v); the callee halted exceptionally with between %d and %d gas left", ai.Gas, deref64(gas), lo, ls.Gas)
+						}
 					}
 				}
 				// actual return data and error of the callee: the callee's last step tells
@@ -767,6 +795,13 @@ func (t *TreeOut) checkGrammar() {
 }
 
 func padMem(mem []byte, off, size uint64) []byte { return mem }
+
+func deref64(v *uint64) string {
+	if v == nil {
+		return "<nil>"
+	}
+	return fmt.Sprint(*v)
+}
 
 func deref(s *string) string {
 	if s == nil {
